@@ -165,6 +165,11 @@ func detProfile() *Profile {
 				if op.K == OpSubmit && uni(t, "direct", 2) == 0 {
 					op.R[1] = []int{40, 16}[uni(t, "dval", 2)] // multiple of 8: the query index is taken literally (mostly the weighted-mode query); values a / b
 				}
+				// the same data respelled (0x prefix / 0X + upper case): accepted and stored as submitted, so equal-weight
+				// ties between spellings of one value occur
+				if op.K == OpSubmit && op.V == 0 && uni(t, "respell", 4) == 0 {
+					op.V = 1 + uni(t, "spelling", 2)
+				}
 			}
 		}
 	}
